@@ -24,7 +24,7 @@ from ropt.results import (
     Gradients,
     Realizations,
 )
-from ropt.transforms import OptModelTransforms
+from ropt.transforms import OptModelTransforms, VariableScaler
 
 ID = "C12"
 LEVEL = "model_checking"
@@ -32,7 +32,7 @@ RULE = (
     "event histories over the alphabet {optimizer-domain objective in {NaN,1,2,2(second object),3}} x {feasible, "
     "infeasible (violation 1.0)} x {tracked source, other source} + {gradient result, result without functions}, built "
     "exactly as the steps build FINISHED_EVALUATION events (results + transformed_results), x {no transform, scaling x2, "
-    "sign-flipping (maximization) transform} x tolerance {None, 0, 1e-10, 0.5}, observed by a 'best' and a 'last' tracker; "
+    "sign-flipping (maximization) transform, variable scaling 0.1 / 10 (reported violations differ from the judged ones)} x tolerance {None, 0, 1e-10, 0.5}, observed by a 'best' and a 'last' tracker; "
     "exhaustive for length <=3 (quick) / <=4 full + <=5 reduced alphabet (thorough); Hypothesis adds multi-result events, "
     "external resets of the tracker and real BasicOptimizer runs (SLSQP with constraints, differential evolution with "
     "NaN results, maximization) replayed against their own event stream. Oracle: reference model evaluated after every "
@@ -48,7 +48,10 @@ ASSUMPTIONS = [
 _CFG = EnOptConfig.model_validate({"variables": {"initial_values": [0.0]}})
 TRACKED, OTHER = uuid.UUID(int=1), uuid.UUID(int=2)
 TRANSFORMS = {"none": None, "scale": OptModelTransforms(objectives=ObjectiveScaler([2.0])),
-              "flip": OptModelTransforms(objectives=ObjectiveScaler([-1.0], flip_weighted=True))}
+              "flip": OptModelTransforms(objectives=ObjectiveScaler([-1.0], flip_weighted=True)),
+              # variable scaling: reported (user-domain) violations are 0.1x / 10x the ones the tracker has to judge
+              "vars-small": OptModelTransforms(variables=VariableScaler(np.array([0.1]), None)),
+              "vars-big": OptModelTransforms(variables=VariableScaler(np.array([10.0]), None))}
 TOLS = [None, 0.0, 1e-10, 0.5]
 
 
@@ -62,17 +65,19 @@ def make_result(letter: tuple[Any, ...]) -> FunctionResults | GradientResults:
             gradients=Gradients.create(np.zeros(1), np.zeros((1, 1))))
     obj = float(letter[1])
     feasible = letter[2]
-    ident = np.array([float(sum(ord(ch) for ch in str(letter[4])) + (100 if letter[3] == "O" else 0) + (1000 if feasible else 0))])
+    ident = np.array([float(sum(ord(ch) for ch in str(letter[4])) + (100 if letter[3] == "O" else 0) + (1000 if feasible is True else (2000 if feasible else 0)))])
     functions = None if kind == "nofun" else Functions.create(np.array(obj), np.array([obj]))
-    info = ConstraintInfo(bound_lower=np.array([1.0 if feasible else -1.0]), bound_upper=np.array([-1.0]))
+    # feasible: True (no violation) | False (violation 1.0) | "slight" (violation 0.2: within the tolerance 0.5 only)
+    info = ConstraintInfo(bound_lower=np.array([-0.2 if feasible == "slight" else (1.0 if feasible else -1.0)]), bound_upper=np.array([-1.0]))
     return FunctionResults(
         batch_id=None, metadata={}, evaluations=FunctionEvaluations.create(ident, np.array([[obj]])),
         realizations=Realizations(failed_realizations=np.array([math.isnan(obj)])), functions=functions, constraint_info=info)
 
 
-def alphabet(reduced: bool) -> list[tuple[Any, ...]]:  # noqa: FBT001
+def alphabet(reduced: bool, slight: bool = False) -> list[tuple[Any, ...]]:  # noqa: FBT001, FBT002
     objs = [("nan", float("nan")), ("1", 1.0), ("2", 2.0)] + ([] if reduced else [("2b", 2.0), ("3", 3.0)])
-    letters: list[tuple[Any, ...]] = [("fun", o, feas, src, tag) for tag, o in objs for feas in (True, False) for src in ("T", "O")]
+    levels = (True, False, "slight") if slight else (True, False)
+    letters: list[tuple[Any, ...]] = [("fun", o, feas, src, tag) for tag, o in objs for feas in levels for src in ("T", "O")]
     letters += [("grad", 0.0, True, "T", "g"), ("nofun", 5.0, True, "T", "n")]
     return letters
 
@@ -241,6 +246,8 @@ def run_real(case: dict[str, Any]) -> dict[str, Any]:
                          np.zeros((2, 1)) if case["constraint"] else None, quad=0.5 * sign)
     if case["nan_every"]:
         ev.fail = {(k, r, -1): [("obj", 0)] for k in range(0, 400, case["nan_every"]) for r in range(2)}
+    if case.get("too_few_at") is not None:  # from this evaluator call on every realization fails: the run ends with TOO_FEW_REALIZATIONS
+        ev.fail = {(k, r, p): [("obj", 0)] for k in range(case["too_few_at"], 400) for r in range(2) for p in (-1, 0, 1, 2)}
     transforms = OptModelTransforms(objectives=ObjectiveScaler([-1.0], flip_weighted=True)) if case["maximize"] else None
     ref = Reference(case["tol"])
     delivered: list[Any] = []
@@ -267,7 +274,7 @@ def hypothesis_shard(item: dict[str, Any]) -> Collector:
     from hypothesis import strategies as st
 
     col = Collector(ID)
-    letters = alphabet(False)
+    letters = alphabet(False, slight=True)
 
     @st.composite
     def cases(draw: Any) -> dict[str, Any]:  # noqa: ANN401
@@ -279,6 +286,7 @@ def hypothesis_shard(item: dict[str, Any]) -> Collector:
                     "constraint": draw(st.booleans()) and method != "nelder-mead", "c_lb": draw(st.sampled_from([-0.5, 0.0, 0.5])),
                     "maximize": draw(st.booleans()), "slopes": [draw(st.sampled_from([-1.0, 0.5, 1.0, 2.0])) for _ in range(8)],
                     "nan_every": draw(st.sampled_from([0, 0, 2, 3])) if method == "differential_evolution" else 0,
+                    "too_few_at": draw(st.integers(1, 6)) if method != "differential_evolution" and draw(st.booleans()) else None,
                     "tol": draw(st.sampled_from([None, 1e-10, 0.5]))}
         events: list[Any] = []
         for _ in range(draw(st.integers(1, 12))):
@@ -294,7 +302,7 @@ def hypothesis_shard(item: dict[str, Any]) -> Collector:
         info = run_real(case) if case["kind"] == "real" else run_history(case)
         col.case(case, nontrivial=info["nontrivial"], classes=(
             case["kind"], f"transform={case.get('transform', 'flip' if case.get('maximize') else 'none')}",
-            *(("method=" + case["method"],) if case["kind"] == "real" else ("multi-result" if any(
+            *(("method=" + case["method"], "ends-with-too-few-realizations" if case.get("too_few_at") is not None else "no-fatal-failure") if case["kind"] == "real" else ("multi-result" if any(
                 e != "reset" and len(e["results"]) > 1 for e in case["events"]) else "single-result",
                 "reset" if "reset" in case["events"] else "no-reset"))))
 
